@@ -355,8 +355,70 @@ fn random_prog(r: &mut Rng, depth: u32, in_body: bool, len: usize) -> Vec<St> {
     v
 }
 
+// The closure must execute *inside* the window: its loads come after the cli, its stores before
+// the sti (the asm blocks are compiler barriers).  A plain static cell is written before the call,
+// read and written by the closure, read and written after the call; the emulated interrupt
+// handler samples and overwrites it at the cli and at the sti.
+static mut CELL: u64 = 0;
+#[inline(never)]
+fn window_wi(a: u64, b: u64, c: u64) -> [u64; 2] {
+    unsafe {
+        let p = std::ptr::addr_of_mut!(CELL);
+        *p = a;
+        let seen = interrupts::without_interrupts(|| {
+            let v = *p;
+            *p = b;
+            v
+        });
+        let after = *p;
+        *p = c;
+        [seen, after]
+    }
+}
+#[inline(never)]
+fn window_de(a: u64, b: u64, c: u64) -> [u64; 2] {
+    unsafe {
+        let p = std::ptr::addr_of_mut!(CELL);
+        *p = a;
+        interrupts::disable();
+        let seen = *p;
+        *p = b;
+        interrupts::enable();
+        let after = *p;
+        *p = c;
+        [seen, after]
+    }
+}
+fn run_windows(out: &mut Out, r: &mut Rng) {
+    for i in 0..24u64 {
+        let (a, b, c) = (1 + r.below(1000), 2000 + r.below(1000), 4000 + r.below(1000));
+        let init = i % 2;
+        let api = if i % 4 < 2 { "without_interrupts" } else { "disable;enable" };
+        set_if(init);
+        sync_overlay();
+        cpu::drain();
+        cpu::PROBE_SEEN[0].store(0, Ordering::SeqCst);
+        cpu::PROBE_SEEN[1].store(0, Ordering::SeqCst);
+        cpu::PROBE.store(std::ptr::addr_of_mut!(CELL) as u64, Ordering::SeqCst);
+        let got = if i % 4 < 2 { window_wi(a, b, c) } else { window_de(a, b, c) };
+        cpu::PROBE.store(0, Ordering::SeqCst);
+        let fin = unsafe { std::ptr::read_volatile(std::ptr::addr_of!(CELL)) };
+        out.emit(
+            Ev::new("window")
+                .str("api", api)
+                .n("if0", init as i64)
+                .ints("p", &[a as i64, b as i64, c as i64])
+                .ints("r", &[got[0] as i64, got[1] as i64, fin as i64])
+                .ints("h", &[cpu::PROBE_SEEN[0].load(Ordering::SeqCst) as i64, cpu::PROBE_SEEN[1].load(Ordering::SeqCst) as i64])
+                .n("if1", cpu::IF.load(Ordering::SeqCst) as i64)
+                .raw("instrs", &instrs()),
+        );
+    }
+}
+
 pub fn run_intr(out: &mut Out, seed: u64, n: u64) {
     cpu::reset_regs();
+    run_windows(out, &mut Rng::new(seed ^ 0x77));
     let budget = if n >= 100_000 { 5 } else { 4 };
     let all = progs(budget);
     let mut count = 0u64;
